@@ -590,6 +590,14 @@ Definition lm_step (l : lstate) (o : op) : option lstate :=
           else None
       | None => None
       end
+  | KView n =>
+      match lk l with
+      | Some (w, ks) =>
+          Some (lemit l (lenc ks ++ [777%N] ++
+                         concat (map (fun i => if length ks <=? i then [0%N] else [1%N; nth i ks 0%N])
+                                     (seq 0 (N.to_nat n)))))
+      | None => None
+      end
   | OArr cs d =>
       match lslice l d with
       | Some q =>
@@ -607,7 +615,15 @@ Definition lm_step (l : lstate) (o : op) : option lstate :=
                          if Bw =? 4
                          then sep ++ [b2n ((length q =? length cs) && list_eqb (map2 N.land cs q) q)]
                          else [] in
-            Some (lemit l (base ++ kpart ++ cpart))
+            match (if Bw =? 2
+                   then match mapM conv_i cs, mapM conv_t cs with
+                        | Some x, Some y => Some (sep ++ lenc x ++ sep ++ lenc y)
+                        | _, _ => None
+                        end
+                   else Some []) with
+            | Some vpart => Some (lemit l (base ++ kpart ++ cpart ++ vpart))
+            | None => None
+            end
           else None
       | None => None
       end
@@ -1138,6 +1154,17 @@ Proof.
   repeat split; try assumption.
 Qed.
 
+Lemma mapM_get ks idx :
+  Forall good ks ->
+  mapM (get_sym C (encode B ks)) idx =
+  Some (map (fun i => if length ks <=? i then None else Some (nth i ks 0%N)) idx).
+Proof.
+  intros G. induction idx as [|i idx IH]; cbn [mapM map]; [reflexivity|].
+  rewrite (get_sym_spec C OK) by (apply good_small; exact G). rewrite IH.
+  destruct (Nat.leb_spec (length ks) i) as [Hi|Hi]; cbn [bind]; [reflexivity|].
+  destruct (good_nth ks i G Hi) as [_ Hc]. unfold canon in Hc. rewrite Hc. reflexivity.
+Qed.
+
 Ltac slice_in A H :=
   match type of H with
   | context [lslice ?l ?d] =>
@@ -1440,7 +1467,11 @@ Proof.
     rewrite !(eqb_enc cs xs), !(eqb_enc xs cs) by assumption.
     rewrite (slen_encode C OK).
     rewrite (contains_spec C OK) by (auto using good_small).
-    unfold list_eqb at 3. done_emit A H.
+    unfold list_eqb at 3. unfold lenc in H. unfold nat2n.
+    destruct (B =? 2).
+    + destruct (mapM cvi cs) as [x|]; [|discriminate].
+      destruct (mapM cvt cs) as [y|]; [|discriminate]. cbn [bind]. done_emit A H.
+    + cbn [bind]. done_emit A H.
   - (* translation of DNA: one codon, windows of three, chunks of three *)
     slice_in A H. rewrite S. cbn [bind].
     destruct m as [|[[p|p|]|[p|p|]|]]; try discriminate.
@@ -1668,6 +1699,16 @@ Proof.
                     |rewrite rev_length, map_length; exact K4
                     |rewrite rev_length, map_length, W64, B2; exact K5
                     |rewrite rev_length, map_length; reflexivity].
+  - (* slice methods on the k-mer itself *)
+    kmer_in A H. rewrite (kderef_spec C OK _ _ K4 K5) by reflexivity. cbn [bind].
+    rewrite (lencodes_enc _ K6). cbn [bind]. rewrite (mapM_get _ _ K6). cbn [bind].
+    rewrite map_map.
+    rewrite (map_ext (fun x : nat =>
+               match (if length ks <=? x then None else Some (nth x ks 0%N)) with
+               | Some c => [1%N; c] | None => [0%N] end)
+             (fun i => if length ks <=? i then [0%N] else [1%N; nth i ks 0%N]))
+      by (intros i; destruct (length ks <=? i); reflexivity).
+    done_emit A H.
 Qed.
 
 (* every history: the observations of the bit-level VM are those of the list machine *)
